@@ -1,6 +1,7 @@
 use crate::engine::*;
 use serde_json::Value;
 
+pub mod c01;
 pub mod c04;
 pub mod c05;
 pub mod c06;
@@ -28,8 +29,17 @@ const PARSE_ASSUMPTIONS: &[&str] = &[
     "no claim for inputs that were not generated (string lengths and area depths as listed in coverage.stages / rule)",
 ];
 
+const EXEC_ASSUMPTIONS: &[&str] = &[
+    "the reference interpreter (harness/src/refexec.rs, small-step over reference rationals, written from the language description) is correct; it is self-tested on every run against the repository's golden programs and examples (documented outputs)",
+    "programs are rendered canonically and parsed by the implementation's parser; the model executes the commands the implementation parsed",
+    "behaviour declared unspecified is excluded: a case is cut at the step that would write a value >= 2^32 to stack 1/2; counts stay below 2^31 by construction",
+    "bulk cases are cut when a value exceeds ~2^190 (size cap, counted in the classes); unbounded values are served by the separate big-values stage",
+    "no claim for inputs that were not generated",
+];
+
 pub fn info(id: &str) -> Option<PropInfo> {
     Some(match id {
+        "C01" => PropInfo { run: c01::run, replay: c01::replay, gates: c01::gates, rule: c01::RULE, assumptions: EXEC_ASSUMPTIONS },
         "C04" => PropInfo { run: c04::run, replay: c04::replay, gates: c04::gates, rule: c04::RULE, assumptions: PARSE_ASSUMPTIONS },
         "C08" => PropInfo { run: c08::run, replay: c08::replay, gates: c08::gates, rule: c08::RULE, assumptions: PARSE_ASSUMPTIONS },
         "C05" => PropInfo { run: c05::run, replay: c05::replay, gates: c05::gates, rule: c05::RULE, assumptions: NUM_ASSUMPTIONS },
